@@ -385,6 +385,8 @@ pub enum POp {
     DelHK { k: i32 },
     WriteK { k: i32, v: i32 },
     Clear,
+    /// every read-only call of the alphabet (logged); used by the clear-twin runs
+    Queries,
 }
 impl POp {
     pub fn to_path(&self) -> String {
@@ -394,6 +396,7 @@ impl POp {
             POp::DelHK { k } => format!("dh {k}"),
             POp::WriteK { k, v } => format!("w {k} {v}"),
             POp::Clear => "c".to_string(),
+            POp::Queries => "q".to_string(),
         }
     }
     pub fn parse(s: &str) -> POp {
@@ -405,6 +408,7 @@ impl POp {
             "dh" => POp::DelHK { k: n(1) },
             "w" => POp::WriteK { k: n(1), v: n(2) },
             "c" => POp::Clear,
+            "q" => POp::Queries,
             other => panic!("unknown path op {other}"),
         }
     }
@@ -518,6 +522,7 @@ impl<'a, C: OrdColl> OrdSession<'a, C> {
                     self.c.clear();
                     self.mine.clear();
                 }
+                POp::Queries => {}
             }
         }
         let snap = self.c.snap_json();
@@ -558,6 +563,7 @@ impl<'a, C: OrdColl> OrdSession<'a, C> {
             POp::Clear => {
                 self.apply(&OOp::Clear, 0);
             }
+            POp::Queries => self.queries(),
         }
     }
 
